@@ -129,3 +129,16 @@ pub fn vx_mem_take_deque<T>(v: &mut VecDeque<T>) -> (r: VecDeque<T>)
 pub fn vx_deque_append<T>(a: &mut VecDeque<T>, b: &mut VecDeque<T>)
     ensures final(a)@ == old(a)@ + old(b)@, final(b)@.len() == 0
 { unimplemented!() }
+// VecDeque::truncate / shrink_to (no vstd spec; A5): keep the first `n` elements / capacity only
+#[verifier::external_body]
+pub fn vx_truncate<T>(v: &mut VecDeque<T>, n: usize)
+    ensures final(v)@ == (if n < old(v)@.len() { old(v)@.take(n as int) } else { old(v)@ })
+{ unimplemented!() }
+#[verifier::external_body]
+pub fn vx_shrink_to<T>(v: &mut VecDeque<T>, n: usize)
+    ensures final(v)@ == old(v)@
+{ unimplemented!() }
+#[verifier::external_body]
+pub fn vx_shrink_to_fit<T>(v: &mut VecDeque<T>)
+    ensures final(v)@ == old(v)@
+{ unimplemented!() }
